@@ -37,7 +37,7 @@ def compare(case, impl_line, model_line):
     ic, _ = split_obs(impl_line)
     mc, mv = split_obs(model_line)
     if "BADANSWERS" in mv:
-        return (-1, "answers violate answer_ok", mv)
+        return (-1, "recorded back-end answers violate answer_ok / answer_ok3 (hypotheses of the stream-layer and round-trip theorems)", mv)
     for k in range(max(len(ic), len(mc))):
         a = strip_trace(ic[k]) if k < len(ic) else "<missing>"
         b = mc[k] if k < len(mc) else "<missing>"
